@@ -355,11 +355,11 @@ func (l pyList) Operator(operator Operator, operand pyObject) pyObject {
 		l2, ok := operand.(pyList)
 		if !ok {
 			if l2, ok := operand.(pyFrozenList); ok {
-				return slices.Clip(append(l, l2.pyList...))
+				return l.concat(l2.pyList)
 			}
 			panic("Cannot add list and " + operand.Type())
 		}
-		return slices.Clip(append(l, l2...))
+		return l.concat(l2)
 	case In, NotIn:
 		for _, item := range l {
 			if item == operand {
@@ -422,6 +422,13 @@ func (l pyList) Iter() iter.Seq[pyObject] {
 			}
 		}
 	}
+}
+
+// concat returns a new list holding the items of l followed by those of l2.
+// The result never shares its backing array with either operand.
+func (l pyList) concat(l2 pyList) pyList {
+	ret := make(pyList, 0, len(l)+len(l2))
+	return append(append(ret, l...), l2...)
 }
 
 // Freeze freezes this list for further updates.
